@@ -86,6 +86,9 @@ class Spec(object):
     def families(self, tier):
         return focused(tier) + universal.family(tier)
 
+    def explicit_families(self, tier):
+        return explicit_basic(tier)
+
 
 def focused(tier):
     K = 3 if tier == "quick" else 4
